@@ -35,7 +35,7 @@ LEVEL_TEXT = ("Seeded exploration over settings pairs.  The connect clause "
 LEVEL_NOTE = ("Trusted: sim/lattice.py's reading of the settings "
               "documentation; model/suites.py.  Only RSA-2048 and ECDSA P-256 "
               "server credentials enter the connect clause.")
-BUDGET = {"quick": 60, "thorough": 1200}
+BUDGET = {"quick": 300, "thorough": 1200}
 CHUNK = 8
 PROBES = ["compatible", "compatible_tls13", "compatible_tls12",
           "compatible_legacy", "incompatible", "purity_checked",
